@@ -381,6 +381,18 @@ func (vc *FnVC) autoInvs(li *LoopInfo, st *State, mod map[*ssa.Alloc]bool) []str
 		if a.Comment == "rangeindex" {
 			if t, ok := st.locals[a]; ok {
 				out = append(out, sx("<=", "(- 1)", t))
+				// upper bound: the head tests `rangeindex+1 < n` with n computed before the loop
+				for _, ins := range li.head.Instrs {
+					if bo, ok := ins.(*ssa.BinOp); ok && bo.Op == token.LSS {
+						if inc, ok := bo.X.(*ssa.BinOp); ok && inc.Op == token.ADD {
+							if ld, ok := inc.X.(*ssa.UnOp); ok && ld.X == a {
+								if nv, ok := vc.regs[bo.Y]; ok && !li.body[bo.Y.(ssa.Instruction).Block()] {
+									out = append(out, sx("<", t, nv.S))
+								}
+							}
+						}
+					}
+				}
 			}
 		}
 	}
@@ -399,13 +411,20 @@ func (vc *FnVC) checkInvs(li *LoopInfo, st *State, hyp string, kind string, mod 
 	}
 	for i, c := range vc.loopInvs(li) {
 		env := vc.invEnv(tmp)
-		t, err := vc.trySpec(func() string { return env.boolExpr(c.Expr) })
+		var parts []string
+		_, err := vc.trySpec(func() string { parts = env.conjuncts(c.Expr, false); return "" })
 		if err != "" {
 			vc.stale = append(vc.stale, fmt.Sprintf("%s loop %d invariant %d: %s", vc.key, li.ord, i+1, err))
 			continue
 		}
 		vc.flushSide(env)
-		vc.assert(kind, fmt.Sprintf("loop%d:%s", li.ord, clauseName(c, i)), t)
+		for j, t := range parts {
+			nm := fmt.Sprintf("loop%d:%s", li.ord, clauseName(c, i))
+			if len(parts) > 1 {
+				nm = fmt.Sprintf("%s.%d", nm, j+1)
+			}
+			vc.assert(kind, nm, t)
+		}
 	}
 	vc.st = save
 }
@@ -617,13 +636,20 @@ func (vc *FnVC) doReturn(r *ssa.Return) {
 	vc.cover("exit-reachable", "return")
 	if vc.con != nil {
 		for i, c := range vc.con.Ensures {
-			t, err := vc.trySpec(func() string { return env.boolExpr(c.Expr) })
+			var parts []string
+			_, err := vc.trySpec(func() string { parts = env.conjuncts(c.Expr, false); return "" })
 			if err != "" {
 				vc.specErrs = append(vc.specErrs, fmt.Sprintf("%s ensures %s: %s", vc.key, clauseName(c, i), err))
 				continue
 			}
 			vc.flushSide(env)
-			vc.assert("post", clauseName(c, i), t)
+			for j, t := range parts {
+				nm := clauseName(c, i)
+				if len(parts) > 1 {
+					nm = fmt.Sprintf("%s.%d", nm, j+1)
+				}
+				vc.assert("post", nm, t)
+			}
 		}
 	}
 }
